@@ -248,6 +248,12 @@ func Discharge(cfg *SolverCfg, obls []*Obligation) {
 						fmt.Printf("  slowground %s [%d/%d] %dms %s size=%d\n", o.Name, gi+1, len(goals), aa.ms, aa.status, len(qa))
 					}
 					o.Ms += aa.ms
+					if strings.HasPrefix(aa.out, "solver disagreement") {
+						o.Status = "failed-unknown"
+						o.Solver = aa.solver
+						o.Output = aa.out
+						return
+					}
 					if aa.status == "unsat" {
 						if o.Solver == "" {
 							o.Solver = aa.solver
@@ -364,8 +370,32 @@ func solveGround(cfg *SolverCfg, query string) solverAnswer {
 	}
 	a := runSolver(context.Background(), "z3-new", file, to)
 	a.solver = "z3-new(ground instances)"
+	if cfg.AllAgree && a.status == "unsat" {
+		// thorough tier: the other solvers are asked the same ground question; any "sat" is a disagreement and fails
+		// the obligation, "unsat" answers are counted as confirmations, timeouts are tolerated
+		confirmed := 0
+		for _, other := range []string{"cvc5", "z3"} {
+			b := runSolver(context.Background(), other, file, cfg.Quick)
+			switch b.status {
+			case "unsat":
+				confirmed++
+			case "sat":
+				a.status = "error"
+				a.out = "solver disagreement: z3-new says unsat, " + other + " says sat"
+				return a
+			}
+		}
+		atomic.AddInt64(&crossConfirmed, int64(confirmed))
+		atomic.AddInt64(&crossAsked, 2)
+		if confirmed > 0 {
+			a.solver = "z3-new(ground instances)+confirmed"
+		}
+	}
 	return a
 }
+
+// cross-check statistics of the thorough tier
+var crossConfirmed, crossAsked int64
 
 func stripQuantifiedAsserts(q string) string {
 	var out []string
